@@ -419,6 +419,9 @@ func errNameE(err error) string {
 	if err == errEmit {
 		return "err:emit"
 	}
+	if err != nil && err.Error() == "savebuf" {
+		return "err:savebuf-grows"
+	}
 	return errName(err)
 }
 
@@ -432,6 +435,7 @@ func deliver(m, a, s int, mode string, chunks [][]byte) (res string) {
 	dec := newDecoder(m, a, s, mode, &fields)
 	var err error
 	var ns []string
+	given := 0
 	for _, c := range chunks {
 		buf := append([]byte(nil), c...)
 		var n int
@@ -441,6 +445,11 @@ func deliver(m, a, s int, mode string, chunks [][]byte) (res string) {
 			buf[i] = 0xAA
 		}
 		if err != nil {
+			break
+		}
+		given += len(c)
+		if hpack.VerifSavedLen(dec) > given { // more kept than ever delivered: stop before it explodes
+			err = fmt.Errorf("savebuf")
 			break
 		}
 	}
